@@ -256,7 +256,15 @@ def rule_args(ctx):
     ctx.floor("R1", "call sites passing connection / queue limits", n, 6)
 
 
+def rule_tls_lifecycle(ctx):
+    """the bound on the TLS reader relies on the flow being dropped after a result and after an error (shared with C08.R3)"""
+    from ..engine import report as R
+    from . import C08
+    C08.rule_flow(R.Retag(ctx, "C08."))
+
+
 def run(ctx):
+    rule_tls_lifecycle(ctx)
     rule_args(ctx)
     rule_R1(ctx)
     rule_R2(ctx)
